@@ -189,6 +189,16 @@ CHECKS = {
         "bits, and judges byte identity of all round trips and field equality.",
         "Payload layouts of the individual opcodes are covered by the round trips only (no per-opcode layout in the spec); field values sampled with boundaries.",
     ),
+    "C13": (
+        "DESIGN.md 5/C13",
+        "TLC decodes every 72-octet frame itself (IPSC.tla: layout, well-formedness, ids, colour, timeslot, burst octets, burst class) and judges both decoders and the serialiser",
+        "The repository's captured frames and generated well-formed frames over sequence numbers, packet / slot / frame / call types, all colour "
+        "codes, both timeslots, boundary and random ids, random reserved bytes and payloads valid for the indicated burst kind are decoded by "
+        "Burst.from_hytera_ipsc from raw bytes and from the generic-parser object; TLC computes ids, colour, timeslot, sequence, burst octets and "
+        "burst class from the frame, requires both decoders to agree with it and with each other, and the re-serialised frame to equal the "
+        "original 72 octets.",
+        "Frames with unknown packet / frame types (folded by design) are not generated; ids/colour 'as encoded' are read from the decoded IPSC object.",
+    ),
 }
 
 NOT_YET = {}
